@@ -7,10 +7,10 @@ LEVEL = "model_checking"
 EXHAUSTIVE = True
 CHUNK = 1
 CASE_TIMEOUT = 600
-RULE = ("all statement sequences up to the depth bound over a 23-statement alphabet in which every statement is tagged with the word "
+RULE = ("all statement sequences up to the depth bound over a 25-statement alphabet in which every statement is tagged with the word "
         "offsets that hold absolute addresses (immediate/absolute/index/.word of labels, of '.', and of symbols assigned label "
         "expressions before the labels exist; PC-relative operands, branches, sob, label differences directly and through symbols, "
-        "an included file referring to a global of the including file), labels before/inside/after; each program is assembled at 5 "
+        "an included file referring to a global of the including file, a '. = .+4' skip, a '.once'-guarded include), labels before/inside/after; each program is assembled at 5 "
         "link bases (7 incl. two that wrap through 177777 when it has no absolute word) with the base set by '.link' first, '. =' "
         "first and '.link' last; all pairs of images are compared word by word: tagged words equal base + label offset at every base, "
         "all other words are identical. state = program x base-placement; transition = appended statement; non-trivial = error-free "
@@ -46,13 +46,17 @@ S = [
     ("jsr pc, il", 4, [], "il"),
     ("mov il, r2", 4, [], "il"),
     ("mov #il, r2", 4, [(1, "il", 0)], "il"),
+    (". = .+4", 4, [], "dot"),
+    (".include \"onc.mac\"", 4, [(1, ".", 2)], "onc"),
 ]
 DEFS = {"sz": "sz = e - s", "fp": "fp = e - 2", "pa": "pa = m + 2"}
 TREE = {"inc.mac": "mov gl, r1\n.word gl\n",
         # an included file that refers to its own first label (whose address is the bare start promise of that file)
         "lib.mac": "lib:\tnop\n\tjsr pc, lib\n\tmov lib, r3\n\tbr lib\n\t.word lib\n",
         # an included file with an exported label that is not at its offset 0, referred to from the including file
-        "il.mac": "\tnop\nil::\tnop\n"}
+        "il.mac": "\tnop\nil::\tnop\n",
+        # a '.once'-guarded include: the guard is per assembly, not per process
+        "onc.mac": "\t.once\n\tnop\n\t.word .\n"}
 
 
 def bound(tier):
@@ -95,6 +99,10 @@ def build(idx, base, place):
             labels["m"] = off
         text, size, tg, _need = S[i]
         lines.append(text)
+        if _need == "onc":
+            if "onc" in labels:
+                continue   # a '.once' file contributes only the first time
+            labels["onc"] = off
         for (wo, lab, add) in tg:
             tags.append((off + 2 * wo, lab, add, off))
         off += size
@@ -118,14 +126,27 @@ def build(idx, base, place):
 
 
 def check_seq(idx, r, case_extra=None):
-    has_abs = any(S[i][2] for i in idx)
+    has_abs = any(S[i][2] or S[i][3] == "dot" for i in idx)   # (a skip computes an absolute target address)
     bases = (BASES if FULL_BASES or len(idx) < 3 else BASES[:2] + BASES[3:]) + ([] if has_abs else WRAP)
+    # all bases and placements of one program are assembled under the same path names (one process assembling a project again)
+    root = driver.prepare_tree(TREE) if any(S[i][3] in ("gl", "lib", "il", "onc") for i in idx) else None
+    try:
+        _check_seq(idx, r, bases, root)
+    finally:
+        if root:
+            import shutil
+            shutil.rmtree(root, ignore_errors=True)
+
+
+def _check_seq(idx, r, bases, root):
     for place in PLACE:
+        if place == "link-last" and any(S[i][3] == "dot" for i in idx):
+            continue   # '. = .+4' is a skip only once the base is set
         imgs = {}
         info = None
         for b in bases:
             text, tags, labels, size = build(idx, b, place)
-            out = driver.assemble([("p.mac", text)], tree=TREE if any(S[i][3] in ("gl", "lib", "il") for i in idx) else None)
+            out = driver.assemble([("p.mac", text)], root=root)
             r.trans += 1
             imgs[b] = (out, text)
             info = (tags, labels, size)
